@@ -1247,6 +1247,10 @@ def static_battery():
                           note="another iterator over the same test is dropped after %d rows first" % k))
     b.append(Scenario("A CLK Y Q\nX C 1 2\n", S, mode="both", default_answer=[1, 2], abandon=2, expect={"static": "ok"},
                       note="an iterator dropped in the middle of an X / C expansion leaves nothing behind"))
+    # eighth round: several outputs read for the first time in one expression: repeated parses agree
+    S6 = [("in", "A", 8, 0)] + [("out", "Q%d" % i, 8) for i in range(6)]
+    b.append(Scenario("A Q0\n(Q0 + Q5 + Q3 + Q1 + Q4 + Q2) X\nlet t = Q4 * Q2 - Q0;\n(t) X\n", S6, mode="both", default_answer=[1] * 6, repeat_parse=40,
+                      expect={"static": "err", "reparse": True}, note="six outputs first read in one expression: repeated parses give equal tests"))
     # eighth round: a repeat bound naming the device output n is an output read (the counter does not exist yet)
     b.append(Scenario("A Y\nrepeat(n + 1) (n) X\n", S + [("out", "n", 8)], mode="both", default_answer=[0, 0, 2], expect={"static": "err"},
                       note="repeat bound reads the output n"))
